@@ -19,7 +19,10 @@ RegionOf(xq) == IF xq > 900000 THEN "edge" ELSE IF xq < 5000 THEN "low" ELSE "bu
 \* absolute caps (relative deviation from the reference, 1e-9 units) per member and region, >= 5 x the largest deviation
 \* measured on the pinned tree (bulk: c35 4.3e-5, c35b 2.6e-4, d3 2.5e-4, d5 6e-6, m60 4e-6; low: 1.9e-4, 3.4e-3, 1.4e-3,
 \* 3.4e-5, 1.9e-5; edge: 1.8e-2, 7.5e-4, 1.1e-1, 2.7e-3, 2.6e-4; node 2.9e-7); a mishandled node or block shows up at 1e-2 .. 1
+\* "listing": the SAME node set written in another order in the card (descending; a refinement made by appending the new
+\* nodes to the old list) is the same grid: the prediction does not move (1e-8)
 Cap(name, region) ==
+  IF name = "listing" THEN 10 ELSE
   CASE region = "bulk" -> (CASE name = "c35" -> 500000 [] name = "c35b" -> 2000000 [] name = "d3" -> 2000000 [] name = "d5" -> 100000
                              [] name = "m60" -> 50000 [] name = "node" -> 5000)
     [] region = "low"  -> (CASE name = "c35" -> 2000000 [] name = "c35b" -> 20000000 [] name = "d3" -> 10000000 [] name = "d5" -> 500000
